@@ -302,7 +302,9 @@ def coq_crosscheck(pairs, tag):
             a = ans.replace('"', '""')
             f.write(f'Goal True. idtac "@@CASE {i}". Abort.\n')
             f.write(f'Eval vm_compute in String.eqb (handle_line "{r}") "{a}".\n')
-    rc, out = run(["timeout", "900", "coqc", "-noglob", "-Q", COQ, "Cel", path], cwd=CACHE)
+    # vm_compute over long request strings recurses deeply: give coqc all the stack there is
+    rc, out = run(f"ulimit -s unlimited 2>/dev/null || ulimit -s 1000000 2>/dev/null; "
+                  f"exec timeout 900 coqc -noglob -Q {COQ} Cel {path}", cwd=CACHE)
     for ext in (".vo", ".vok", ".vos", ".glob"):
         try:
             os.remove(path[:-2] + ext)
@@ -531,8 +533,17 @@ def main():
 
     # in-Coq cross-check of a sample (and of every disagreement)
     step = max(1, len(all_cases) // (50 if tier == "quick" else 400))
-    sample = [(all_cases[j][0], model[j]) for j in range(0, len(all_cases), step)
-              if not all_cases[j][0].startswith("(harness-died")][:500]
+    # the sample takes, from every stride, the first case of moderate size (a request of tens of
+    # kilobytes is a Coq string literal of that size: slow to read, nothing to do with the model)
+    sample = []
+    for j in range(0, len(all_cases), step):
+        for k in range(j, min(j + step, len(all_cases))):
+            if all_cases[k][0].startswith("(harness-died"):
+                continue
+            if len(all_cases[k][0]) + len(model[k]) <= 12000:
+                sample.append((all_cases[k][0], model[k]))
+                break
+    sample = sample[:500]
     sample += [(c[0], m) for (c, m, _) in disagreements[:20] if not c[0].startswith("(harness")]
     xok, xn, xerr = coq_crosscheck(sample, pid)
     log(f"[{pid}] correspondence: {len(all_cases)} cases, {len(disagreements)} disagreements, "
